@@ -14,7 +14,9 @@
    theorems, Proofs/SchedProofs.v). *)
 From Coq Require Import List ZArith QArith Bool.
 From PV Require Import Model.Sched Model.SchedTree Model.SchedProfileTree.
-From PV Require Import Proofs.SchedTreeSpec Proofs.SchedProfileTreeProofs.
+From PV Require Import Model.SchedConc Model.SchedNested.
+From PV Require Import Proofs.SchedTreeSpec Proofs.SchedConcProofs Proofs.SchedConcCor Proofs.SchedNestedProofs Proofs.SchedNestedCor.
+From PV Require Import Proofs.SchedProfileTreeProofs Proofs.SchedProfileConc.
 Import ListNotations.
 Local Open Scope Z_scope.
 
@@ -60,6 +62,22 @@ Theorem C02_profile_rate_leaf : forall p, valid p -> is_rate p = true ->
 Proof. exact rate_leaf_good. Qed.
 Print Assumptions C02_profile_rate_leaf.
 
+(* Under concurrency: the schedule built from any valid configuration (any nesting), any number of callers
+   with any programs of Next / Left, every interleaving of the nested steps of Model/SchedNested.v: the
+   conclusion of C02_conc_nested holds (linearizable to the abstract stream, nothing panics) and the
+   times each caller is given never decrease - with no hypothesis about the leaves left. *)
+Theorem C02_profile_conc_thread_mono : forall pc c fuel now0,
+  pvalid pc -> compile pc = Some c -> (size_cfg c <= S fuel)%nat ->
+  exists c0, build (S fuel) now0 c = Ok c0 /\ flatten c0 = flatten_cfg c /\
+    (comp_len c0 <> 0%nat -> forall lo0 ths st, ninit_threads ths ->
+       nireach fuel {| ni_g := {| ng_c := c0; ng_lo := lo0; ng_threads := ths |};
+                       ni_a := a_init (flatten_cfg c); ni_log := [] |} st ->
+       nconc_conclusion fuel c0 lo0 ths st /\
+       exists p, forall i th, nth_error (ng_threads (ni_g st)) i = Some th ->
+         nondecr p (next_results (n_hist th))).
+Proof. exact profile_conc_thread_mono. Qed.
+Print Assumptions C02_profile_conc_thread_mono.
+
 (* ------------------------------------------------------------------ non-vacuity *)
 (* a long, almost flat, rising line (0.001 -> 0.003 operations per second during 3000 s: six tokens,
    the slope adds two to the four of the initial rate), two tokens at once, a nested composite of a
@@ -99,3 +117,13 @@ Proof.
   assert (E : (4 < Z.to_nat (line_n (1 # 1000) (3 # 1000) 3000000000000))%nat) by (vm_compute; repeat constructor).
   specialize (B E). vm_compute in B. destruct B as [_ B]. apply B. reflexivity.
 Qed.
+
+(* the hypotheses of C02_profile_conc_thread_mono hold for the example: it fits the fuel and builds to a
+   non-empty composite *)
+Example C02_profile_conc_example :
+  match compile ex_profile with
+  | Some c => (size_cfg c <= 10)%nat /\
+              match build 10 0 c with Ok c0 => comp_len c0 = 3%nat | _ => False end
+  | None => False
+  end.
+Proof. vm_compute. split; [repeat constructor|reflexivity]. Qed.
